@@ -145,7 +145,7 @@ var ErrSource = errors.New("verif: injected attachment source failure")
 
 // CallEv renders the arguments of a call.
 func CallEv(i int, c wl.Call) wl.Ev {
-	e := wl.Ev{"ev": "Call", "i": i + 1, "op": c.Op}
+	e := wl.Ev{"ev": "Call", "i": i + 1, "op": c.Op, "refused": c.Refused}
 	switch c.Op {
 	case "header":
 		e["profile"] = wl.Blob(c.Profile)
